@@ -206,7 +206,10 @@ class Run:
             self.hw.fail_writes = not write_ok
             self.env.now += dt * UNIT
             self._now[0] = self.env.now
-            e.tick(self.env.now, dt * UNIT)
+            try:
+                e.tick(self.env.now, dt * UNIT)
+            except Exception as ex:       # C13: no exception may escape a tick
+                self.cmd_log.append(("crash", type(ex).__name__, str(ex)[:200]))
             self.env.ticks += 1
             self.hw.fail_reads = False
             self.hw.fail_writes = False
@@ -272,6 +275,9 @@ class Run:
                 continue
             if kind == "error":
                 events.append(["error"])
+                continue
+            if kind == "crash":
+                events.append(["crash", name, iid])
                 continue
             if kind == "clock":
                 events.append(["clock", name[0], units(name[1]), [units(x) for x in iid[0]], [units(x) for x in iid[1]]])
@@ -397,6 +403,8 @@ def view_to_coq(v):
             return f"EPause {b(e[1])} {lst([tup(nat(i), z(x)) for i, x in e[2]])}"
         if e[0] == "out":
             return f"EOut {b(e[1])} {nat(e[2])} {z(e[3])}"
+        if e[0] == "crash":
+            return "ECrash"
         if e[0] == "error":
             return "EError"
         if e[0] == "clock":
